@@ -432,7 +432,7 @@ def lineblocksGo (rec : Rec) (env : Env) (allowed : List Str) :
     | none => lineblocksGo rec env allowed rest reader writer
     | some mt =>
       match mt.whole with
-      | [] => raise (.indexError "match[0][0]")
+      | [] => raise (.indexError "match[0][0] line")
       | c0 :: _ =>
         if c0 == '\\' then
           let reader ← reader.unescape
@@ -593,7 +593,7 @@ def delimitedGo (rec : Rec) (env : Env) (allowed : List Str) :
     | none => delimitedGo rec env allowed rest reader writer
     | some mt =>
       match mt.whole with
-      | [] => raise (.indexError "match[0][0]")
+      | [] => raise (.indexError (if isPara then "match[0][0] paragraph" else "match[0][0] block"))
       | c0 :: _ =>
         if c0 == '\\' && !isPara then
           let reader ← reader.unescape
@@ -642,7 +642,7 @@ where
       | none => go rest reader
       | some mt =>
         match mt.whole with
-        | [] => raise (.indexError "match[0][0]")
+        | [] => raise (.indexError "match[0][0] list")
         | c0 :: _ =>
           if c0 == '\\' then
             let reader ← reader.unescape
